@@ -362,4 +362,196 @@ Section Put.
           * symmetry. apply L0. apply ts_in.
     Qed.
   End Insert.
+
+  (** ** small facts used by the assembly *)
+  Lemma tins_ext : forall (B B' : nat -> Z) k dp nid T,
+    (forall i, In i (inners T) -> B' i = B i) -> tins B' k dp nid T = tins B k dp nid T.
+  Proof.
+    induction T as [i|i l IHl r IHr]; intros H; cbn [tins]; auto.
+    rewrite (H i) by (simpl; auto). rewrite IHl, IHr; auto; intros; apply H; simpl; right; apply in_or_app; auto.
+  Qed.
+
+  Lemma ts_ext : forall (B B' : nat -> Z) k T,
+    (forall i, In i (inners T) -> B' i = B i) -> ts B' k T = ts B k T.
+  Proof.
+    induction T as [i|i l IHl r IHr]; intros H; cbn [ts]; auto.
+    rewrite (H i) by (simpl; auto). rewrite IHl, IHr; auto; intros; apply H; simpl; right; apply in_or_app; auto.
+  Qed.
+
+  Lemma tins_node : forall B k dp nid T, exists i l r, tins B k dp nid T = PNode i l r.
+  Proof.
+    intros B k dp nid T. assert (W : forall S, exists i l r, wrap k dp nid S = PNode i l r).
+    { intros S. unfold wrap. destruct (pbit k dp); eauto. }
+    destruct T as [i|i l r]; cbn [tins]; auto. destruct (B i <? dp); auto. destruct (pbit k (B i)); eauto.
+  Qed.
+
+  Lemma sput_In_iff : forall k (v : V) (m : smap V) e, sorted m ->
+    (In e (sput k v m) <-> e = (k, v) \/ (In e m /\ fst e <> k)).
+  Proof.
+    induction m as [|[k' v'] m IH]; intros e S; simpl.
+    - intuition.
+    - apply sorted_cons_inv in S as [S F]. rewrite Forall_forall in F. destruct (lex_cmp k k') eqn:E.
+      + apply lex_cmp_eq in E. subst k'. simpl. split.
+        * intros [<- | H]; auto. right. split; auto. intros EQ. apply F in H. unfold elt in H. simpl in H.
+          rewrite EQ in H. now apply klt_irrefl in H.
+        * intros [-> | [[<- | H] NE]]; auto. simpl in NE. congruence.
+      + simpl. split.
+        * intros [<- | [<- | H]]; auto.
+          -- right. split; auto. simpl. intros ->. rewrite lex_cmp_refl in E. discriminate.
+          -- right. split; auto. intros EQ. apply F in H. unfold elt in H. simpl in H. rewrite EQ in H.
+             apply (klt_irrefl k). eapply klt_trans; eauto.
+        * intros [-> | [H NE]]; auto.
+      + simpl. rewrite IH by exact S. split.
+        * intros [<- | [-> | [H NE]]]; auto. right. split; auto. simpl. intros ->.
+          rewrite lex_cmp_refl in E. discriminate.
+        * intros [-> | [[<- | H] NE]]; auto.
+  Qed.
+
+  Lemma contents_In : forall t r rn c T e, PInvN t r rn c T ->
+    (In e (p_contents t) <-> exists j n, In j (leaves T) /\ nth_error (pheap t) j = Some n /\ e = kv_of n).
+  Proof.
+    intros t r rn c T e I. unfold p_contents. rewrite (PInvN_tree t r rn c T I). rewrite in_map_iff. split.
+    - intros [n [<- H]]. apply entries_In in H as [j [Hj Hn]]. eauto.
+    - intros [j [n [Hj [Hn ->]]]]. exists n. split; auto. apply entries_In. eauto.
+  Qed.
+
+  Lemma PInv_sorted : forall t, PInv t -> sorted (p_contents t).
+  Proof. intros t I. apply checked_sorted. now apply PInv_check. Qed.
+
+  Lemma PInvN_search : forall t r rn c T k, PInvN t r rn c T ->
+    p_search t k = ROk (Some (tsearch (pheap t) k T)).
+  Proof.
+    intros t r rn c T k I. pose proof (PInvN_tree t r rn c T I) as PT. destruct I.
+    unfold p_tree in PT. rewrite q_root0, q_rn0, q_left0, q_right0, q_bp0, Z.eqb_refl in PT.
+    unfold p_search. rewrite q_root0. unfold hget. rewrite q_rn0. cbn [rbind]. rewrite q_left0. cbn [link rbind].
+    rewrite (search_unfold _ _ k 0 r rn c T _ PT q_rn0 q_bp0) by (unfold fuel_of; lia). reflexivity.
+  Qed.
+
+  (** a held key is found by its own search: no other thread carries the same key *)
+  Lemma key_unique : forall t r rn c T j, PInvN t r rn c T -> In j (leaves T) ->
+    tsearch (pheap t) (nkey (pheap t) j) T = j.
+  Proof. intros t r rn c T j I Hj. destruct I. apply tsearch_leaf; auto. now apply good_of_tbits. Qed.
+
+  Lemma inners_le : forall t r rn c T, PInvN t r rn c T -> (length (inners T) <= length (pheap t))%nat.
+  Proof.
+    intros t r rn c T I. destruct I. destruct (rep_valid _ _ _ _ q_rep0) as [VI _].
+    pose proof (NoDup_incl_length q_nodup0 (l' := seq 0 (length (pheap t)))) as NL.
+    rewrite seq_length in NL. apply NL. intros i Hi. apply in_seq. specialize (VI i Hi). lia.
+  Qed.
+
+  (** ** Put into the empty trie *)
+  Lemma put_empty : forall t k v, proot t = None -> kvalid k ->
+    exists t', p_put t k v = ROk t' /\ PInv t' /\ p_contents t' = [(k, v)].
+  Proof.
+    intros t k v R KV. unfold p_put. rewrite R.
+    set (id := length (pheap t)).
+    set (n := {| n_bp := 0; n_key := k; n_val := v; n_left := Some id; n_right := None |}).
+    set (t' := {| psize := 1; proot := Some id; pheap := pheap t ++ [n] |}).
+    exists t'. split; [reflexivity|].
+    assert (Hn : nth_error (pheap t') id = Some n).
+    { simpl. unfold id. rewrite nth_error_app2 by lia. now rewrite Nat.sub_diag. }
+    assert (I : PInvN t' id n id (PLeaf id)).
+    { constructor; auto; simpl; try exact Logic.I; try (now constructor).
+      - apply (RepLeaf _ 0 id n); auto. simpl. lia.
+      - intros j [<- | []]. unfold nkey. change (pheap t ++ [n]) with (pheap t'). rewrite Hn. exact KV. }
+    split.
+    - unfold PInv. simpl. eauto.
+    - unfold p_contents. rewrite (PInvN_tree t' id n id (PLeaf id) I). unfold entries. simpl.
+      simpl in Hn. rewrite Hn. reflexivity.
+  Qed.
+
+  (** ** Put of a key that is not held *)
+  Lemma put_new : forall t r rn c T k v ln, PInvN t r rn c T -> kvalid k ->
+    nth_error (pheap t) (tsearch (pheap t) k T) = Some ln -> n_key ln <> k ->
+    exists t', p_put t k v = ROk t' /\ PInv t' /\
+      forall e, In e (p_contents t') <-> e = (k, v) \/ (In e (p_contents t) /\ fst e <> k).
+  Proof.
+    intros t r rn c T k v ln I KV Hl NE. pose proof I as I0. destruct I.
+    set (h := pheap t) in *. set (j0 := tsearch h k T) in *.
+    assert (J0 : In j0 (leaves T)) by apply tsearch_in.
+    assert (KL : nkey h j0 = n_key ln) by (unfold nkey; now rewrite Hl).
+    destruct (diffpos_valid (n_key ln) k) as [D1 [AG DF]]; auto; [rewrite <- KL; auto|].
+    set (dp := diffpos (n_key ln) k) in *.
+    pose proof (inners_le t r rn c T I0) as IL. fold h in IL. pose proof (height_inners T) as HI.
+    destruct (put_core h k v dp T 0 c q_rep0 r rn (fuel_of h)) as [p' [c' [PL [Lp [WH [PC RP]]]]]];
+      auto; try lia.
+    { unfold fuel_of. lia. }
+    { rewrite <- tsearch_ts. fold j0. rewrite KL. now apply agree_sym. }
+    { rewrite <- tsearch_ts. fold j0. rewrite KL. auto. }
+    set (h2 := H2 h k v dp p' c') in *.
+    set (t' := {| psize := psize t + 1; proot := Some r; pheap := h2 |}).
+    exists t'.
+    destruct (nth_error h p') as [pn'|] eqn:Hp'; [|apply nth_error_None in Hp'; lia].
+    assert (PUT : p_put t k v = ROk t').
+    { unfold p_put. fold h. rewrite q_root0. rewrite (PInvN_search t r rn c T k I0). fold h j0.
+      cbn [rbind link]. unfold hget at 1. rewrite Hl. cbn [rbind].
+      rewrite (proj2 (keqb_neq _ _) NE). fold dp. unfold hget at 1. rewrite q_rn0. cbn [rbind].
+      rewrite q_left0. cbn [link rbind]. rewrite PL. cbn [rbind]. rewrite kbit_pos by lia. cbn [rbind].
+      unfold hget at 1. rewrite (nth_error_app1 _ _ Lp), Hp'. cbn [rbind].
+      unfold t', h2, H2, redirect. rewrite (nth_error_app1 _ _ Lp), Hp'. unfold nw.
+      unfold set_left, set_right, hget. rewrite (nth_error_app1 _ _ Lp), Hp'. cbn [rbind].
+      destruct (oeq (n_left pn') (Some c')); cbn [rbind]; reflexivity. }
+    split; [exact PUT|].
+    (* the nodes of the new heap *)
+    assert (OLD : forall i n, nth_error h i = Some n ->
+              exists n', nth_error h2 i = Some n' /\ n_bp n' = n_bp n /\ n_key n' = n_key n /\ n_val n' = n_val n).
+    { intros i n Hi. now apply H2_bp. }
+    assert (NEW : nth_error h2 (length h) = Some (nw h k v dp c')) by now apply H2_new.
+    assert (BI : forall i, In i (inners T) -> nbp h2 i = nbp h i).
+    { intros i Hi. destruct (rep_valid _ _ _ _ q_rep0) as [VI _]. specialize (VI i Hi).
+      destruct (nth_error h i) as [n|] eqn:E; [|apply nth_error_None in E; lia].
+      destruct (OLD i n E) as [n' [E1 [E2 _]]]. unfold nbp. now rewrite E, E1. }
+    assert (KJ : forall j, In j (leaves T) -> nkey h2 j = nkey h j).
+    { intros j Hj. destruct (rep_valid _ _ _ _ q_rep0) as [_ VL]. specialize (VL j Hj).
+      destruct (nth_error h j) as [n|] eqn:E; [|apply nth_error_None in E; lia].
+      destruct (OLD j n E) as [n' [E1 [_ [E3 _]]]]. unfold nkey. now rewrite E, E1. }
+    assert (BN : nbp h2 (length h) = dp).
+    { unfold nbp. rewrite NEW. unfold nw. now destruct (pbit k dp). }
+    assert (KN : nkey h2 (length h) = k).
+    { unfold nkey. rewrite NEW. unfold nw. now destruct (pbit k dp). }
+    assert (FI : ~ In (length h) (inners T)).
+    { intros F. destruct (rep_valid _ _ _ _ q_rep0) as [VI _]. specialize (VI _ F). lia. }
+    assert (FL : ~ In (length h) (leaves T)).
+    { intros F. destruct (rep_valid _ _ _ _ q_rep0) as [_ VL]. specialize (VL _ F). lia. }
+    set (T' := tins (nbp h) k dp (length h) T) in *.
+    assert (ET : T' = tins (nbp h2) k dp (length h) T) by (symmetry; now apply tins_ext).
+    (* the new root record and its left link *)
+    set (c2 := if Nat.eqb p' r then length h else c) in *.
+    assert (ROOT : exists rn2, nth_error h2 r = Some rn2 /\ n_left rn2 = Some c2 /\ n_right rn2 = None /\ n_bp rn2 = 0).
+    { unfold c2. destruct (Nat.eqb_spec p' r) as [->|NR].
+      - specialize (PC eq_refl). subst c'. rewrite Hp' in q_rn0. injection q_rn0 as ->.
+        unfold h2. rewrite (H2_at h k v dp r c rn Hp'). rewrite q_left0. simpl. rewrite Nat.eqb_refl.
+        eexists. split; [reflexivity|]. simpl. auto.
+      - exists rn. unfold h2. rewrite H2_other; auto. apply nth_error_Some. congruence. }
+    destruct ROOT as [rn2 [R1 [R2 [R3 R4]]]].
+    assert (I2 : PInvN t' r rn2 c2 T').
+    { constructor; auto.
+      - destruct (tins_node (nbp h) k dp (length h) T) as [i [l [rr E]]]. unfold T'. now rewrite E.
+      - apply (nodup_tins (nbp h) (nkey h)); auto.
+      - simpl. rewrite ET. apply tbits_tins; auto.
+        + apply (tbits_ext (nbp h) _ (nkey h)); auto.
+        + rewrite (ts_ext (nbp h)) by auto. rewrite <- tsearch_ts. fold j0. rewrite KJ, KL by auto. now apply agree_sym.
+        + rewrite (ts_ext (nbp h)) by auto. rewrite <- tsearch_ts. fold j0. rewrite KJ, KL by auto. auto.
+      - simpl. intros j Hj. unfold T' in Hj. apply (leaves_tins (nbp h) (nkey h)) in Hj. destruct Hj as [-> | Hj]; [now rewrite KN|].
+        rewrite KJ by auto. auto.
+      - simpl. unfold T'. rewrite length_leaves_tins, q_size0. lia. }
+    split; [unfold PInv; simpl; eauto|].
+    intros e. rewrite (contents_In t' r rn2 c2 T' e I2), (contents_In t r rn c T e I0). simpl. fold h. split.
+    - intros [j [n [Hj [Hn ->]]]]. apply (leaves_tins (nbp h) (nkey h)) in Hj as [-> | Hj].
+      + left. rewrite NEW in Hn. injection Hn as <-. unfold nw, kv_of. now destruct (pbit k dp).
+      + right. destruct (rep_valid _ _ _ _ q_rep0) as [_ VL]. specialize (VL j Hj).
+        destruct (nth_error h j) as [n0|] eqn:E; [|apply nth_error_None in E; lia].
+        destruct (OLD j n0 E) as [n' [E1 [_ [E3 E4]]]]. rewrite Hn in E1. injection E1 as <-.
+        split.
+        * exists j, n0. repeat split; auto. unfold kv_of. now rewrite E3, E4.
+        * simpl. rewrite E3. intros EK. apply NE.
+          assert (JJ : j = j0).
+          { unfold j0. rewrite <- (key_unique t r rn c T j I0 Hj). fold h. unfold nkey. now rewrite E, EK. }
+          subst j. rewrite Hl in E. injection E as <-. exact EK.
+    - intros [-> | [[j [n [Hj [Hn ->]]]] NK]].
+      + exists (length h), (nw h k v dp c'). split; [apply (leaves_tins (nbp h) (nkey h)); auto|]. split; auto.
+        unfold nw, kv_of. now destruct (pbit k dp).
+      + destruct (OLD j n Hn) as [n' [E1 [_ [E3 E4]]]]. exists j, n'. split; [apply (leaves_tins (nbp h) (nkey h)); auto|].
+        split; auto. unfold kv_of. now rewrite E3, E4.
+  Qed.
 End Put.
